@@ -351,8 +351,12 @@ VF_PART(hermite_condexp)
 // Parts that re-judge the clauses on a re-used object set KEYPFX ("reuse:<class>:<steps>:"); the generic keys of the judging
 // functions are then reported under that prefix, the mechanism keys of the known _defineBounds defects stay as they are.
 static std::string KEYPFX;
+static bool NO_BOUNDS_MECH = false;   // the object judged is not a point fit: never attribute to the known _defineBounds mechanisms
+static int LAST_BOUNDS_CLASS = 0;      // classification of the last object judged by judgeHermite: 0 nested, 1 absolute-inside-practical, 2 ay-by-inverse-search
+static std::string MECH_OVERRIDE;   // when set, every generic key of the judging functions is reported under this mechanism key
 static std::string KK(const std::string& key)
 {
+  if (!MECH_OVERRIDE.empty()) return MECH_OVERRIDE;
   if (KEYPFX.empty()) return key;
   size_t p = key.find(':');
   return KEYPFX + (p == std::string::npos ? key : key.substr(p + 1));
@@ -418,7 +422,9 @@ static void judgeHermite(Ctx& C, AnamHermite* a, const std::string& desc, const 
     ayByInverse = (okLow == 0) || (okHigh == 0);
   }
   C.outcome(azInside ? "bounds:absolute-inside-practical" : ayByInverse ? "bounds:ay-is-another-preimage-of-az" : "bounds:nested");
+  LAST_BOUNDS_CLASS = azInside ? 1 : ayByInverse ? 2 : 0;
   auto mechKey = [&](const std::string& other) {
+    if (NO_BOUNDS_MECH) return KK(other);
     return azInside ? std::string("hermite-anam:bounds:absolute-inside-practical") : ayByInverse ? std::string("hermite-anam:bounds:ay-by-inverse-search") : KK(other);
   };
   double zlo = std::max(azmin, pzmin), zhi = std::min(azmax, pzmax);
@@ -465,6 +471,14 @@ static void judgeHermite(Ctx& C, AnamHermite* a, const std::string& desc, const 
       bool clipped = (z <= azmin || z >= azmax);  // forward value clamped to the absolute bounds: not invertible there, excluded
       if (clipped) { C.skip(); C.outcome("y-z-y:clamped-excluded"); continue; }
       bool okk = dy <= DYMAX * (1 + eps) + 1e-12 || dz <= dzmax * (1 + eps) + 1e-12 * zscale;
+      if (!FFFF(y2) && !std::isnan(y2) && !okk && !azInside && !ayByInverse && dy <= 0.2)
+      {
+        // the argument "y and y' lie in the final bracket, hence |T(y')-T(y)| <= dz" needs T monotone inside the bracket; a
+        // wiggle finer than the 0.1 grid between y and y' (seen on a 16-point ladder) voids it: excluded and counted
+        bool wiggle = false; double pv = a->transformToRawValue(std::min(y, y2));
+        for (int q = 1; q <= 16; q++) { double tv = a->transformToRawValue(std::min(y, y2) + dy * (q / 16.)); if (tv < pv - 1e-12 * zscale) wiggle = true; pv = tv; }
+        if (wiggle) { C.skip(); C.outcome("y-z-y:sub-grid-wiggle-inside-bracket(excluded)"); continue; }
+      }
       if (FFFF(y2) || std::isnan(y2) || !okk)
       {
         C.outcome("y-z-y:VIOLATED");
@@ -2143,6 +2157,126 @@ VF_PART(reuse)
     }
   }
   if (owns_part(C)) C.note("VH::normalScore is a static function (no state): no reuse history; AnamDiscreteDD/IR are not raw<->Gaussian transforms and are not driven");
+}
+
+// ================================================================================================
+// PART 14: change of support (discrete Gaussian block model) of the Hermite anamorphosis: psi_n -> psi_n r^n.
+// Routes: 0 setRCoef(r) after the fit, 1 updatePointToBlock(r) after the fit, 2 r given to the constructor, then the fit.
+// Clauses: block coefficients = psi_n r^n (independent product), mean unchanged, variance = sum psi_n^2 r^2n <= point variance,
+// computeVariance(c) = sum psi_n^2 r^2n c^n, r = 1 identical to the point model, forward transform (bounds off) = sum psi_n r^n H_n(y)
+// with the long double reference polynomials, and - with bounds on, as the object is used - the round trips / monotonicity of
+// part anam_hermite inside the interval the object reports AFTER the change of support.
+// AnamDiscreteDD / AnamDiscreteIR block models are not raw<->Gaussian transforms (no inverse to compose): not driven.
+VF_PART(change_of_support)
+{
+  const auto& M0 = dataMenu(C.thorough());
+  static std::vector<DataSet> M;
+  if (M.empty())
+  {
+    for (auto& d : M0) if (!isConstant(d.z) && d.z.size() >= 4 && d.z.size() <= (C.thorough() ? 129u : 33u) && (C.thorough() || d.z.size() <= 5 || d.name.compare(0, 2, "ms") != 0)) M.push_back(d);
+    M.push_back({{0, 0.5, 1, 1, 1.5, 9, 9.5, 10, 10, 11}, "bimodal"});
+    M.push_back({{-64, -8, -8, -4, -2, -1, -1, -0.5, -0.25, 0}, "left-skewed"});
+  }
+  static const int NB[] = {3, 5, 10, 20, 40};
+  static const double RC[] = {1, 0.9, 0.5, 0.1};
+  static const char* ROUTE[] = {"setRCoef", "updatePointToBlock", "constructor"};
+  Space sp; sp.axis("data", (int)M.size()).axis("nbpoly", 5).axis("r", 4).axis("route", 3);
+  for_each_case(C, sp, [&](uint64_t id, const std::vector<int>& ix) {
+    const DataSet& D = M[ix[0]];
+    int nb = NB[ix[1]]; double r = RC[ix[2]]; int route = ix[3];
+    std::string kase = std::to_string(id);
+    std::string desc = "AnamHermite(nbpoly=" + std::to_string(nb) + ") fitted on " + (D.z.size() <= 12 ? vstr(D.z) : D.name) + ", change of support r=" + fmt(r) + " through " + ROUTE[route];
+    AnamHermite* pt = AnamHermite::create(nb);
+    if (pt->fitFromArray(D.z)) { C.skip(); C.outcome("point-fit-fails(judged elsewhere)"); delete pt; return; }
+    AnamHermite* bl = route == 2 ? AnamHermite::create(nb, true, r) : AnamHermite::create(nb);
+    int e = bl->fitFromArray(D.z);
+    if (!e && route == 0) bl->setRCoef(r);
+    if (!e && route == 1) e = bl->updatePointToBlock(r);
+    C.eval();
+    if (e) { C.violation(std::string("cos:anam-hermite:") + ROUTE[route] + ":fails", desc + ": returns " + std::to_string(e), kase); delete pt; delete bl; return; }
+    std::string K = "cos:anam-hermite:";
+    VectorDouble psi = pt->getPsiHns(), psb = bl->getPsiHns();
+    // ---- r = 1 : the point model
+    if (r == 1)
+    {
+      Obs a = contObs(bl), b = contObs(pt);
+      std::string detail, w = obsDiff(a, b, detail);
+      C.outcome(w.empty() ? "r=1:identical-to-point-model" : "r=1:DIFFERS");
+      if (!w.empty()) C.violation(K + "r=1-differs-from-point:" + w, desc + ": " + detail, kase);
+    }
+    // ---- coefficients psi_n r^n, mean, variance
+    {
+      bool ok = (int)psb.size() == nb;
+      LD rn = 1, var = 0, varc = 0, cn = 1;
+      for (int n = 0; n < nb && ok; n++)
+      {
+        LD want = (LD)psi[n] * rn;
+        if (fabsl((LD)psb[n] - want) > 1e-12L * fabsl(want) || fabsl((LD)bl->getPsiHn(n) - want) > 1e-12L * fabsl(want))
+        { ok = false; C.violation(K + "coefficients", desc + ": block coefficient " + std::to_string(n) + " = " + fmt(psb[n]) + " / " + fmt(bl->getPsiHn(n)) + ", psi_n r^n = " + fmt((double)want), kase); }
+        if (n >= 1) { var += want * want; varc += want * want * cn; }   // cn = 0.5^n
+        rn *= (LD)r; cn *= 0.5L;
+      }
+      C.eval();
+      if (!sameBits(bl->getMean(), pt->getMean()) || !sameBits(bl->getMean(), psi[0]))
+        C.violation(K + "mean", desc + ": mean of the block model " + fmt(bl->getMean()) + ", point model " + fmt(pt->getMean()) + " (psi_0=" + fmt(psi[0]) + ")", kase);
+      if (fabsl((LD)bl->getVariance() - var) > 1e-12L * var || fabsl((LD)bl->computeVariance(1.) - var) > 1e-12L * var)
+        C.violation(K + "variance", desc + ": variance " + fmt(bl->getVariance()) + " / computeVariance(1)=" + fmt(bl->computeVariance(1.)) + ", sum psi_n^2 r^2n = " + fmt((double)var), kase);
+      if (fabsl((LD)bl->computeVariance(0.5) - varc) > 1e-12L * std::max<LD>(varc, 1e-300L))
+        C.violation(K + "computeVariance", desc + ": computeVariance(0.5)=" + fmt(bl->computeVariance(0.5)) + ", sum psi_n^2 r^2n 0.5^n = " + fmt((double)varc), kase);
+      if (bl->getVariance() > pt->getVariance() * (1 + 1e-12))
+        C.violation(K + "variance-not-reduced", desc + ": block variance " + fmt(bl->getVariance()) + " > point variance " + fmt(pt->getVariance()), kase);
+      C.outcome(r == 1 ? "variance:r=1" : bl->getVariance() < pt->getVariance() ? "variance:reduced" : "variance:equal");
+    }
+    // ---- forward transform without bounds = sum psi_n r^n H_n(y)
+    {
+      bl->setFlagBound(false);
+      bool ok = true;
+      for (int k = -32; k <= 32 && ok; k++)
+      {
+        double y = k / 8.;
+        std::vector<LD> h; refH((LD)y, nb, h);
+        LD want = 0, sabs = 0, rn = 1;
+        for (int n = 0; n < nb; n++) { want += (LD)psi[n] * rn * h[n]; sabs += fabsl((LD)psi[n] * rn * h[n]); rn *= (LD)r; }
+        double got = bl->transformToRawValue(y);
+        C.eval();
+        if (fabsl((LD)got - want) > 1e-10L * std::max<LD>(sabs, 1e-300L))
+        { ok = false; C.violation(K + "forward", desc + ": (bounds off) T(" + fmt(y) + ")=" + fmt(got) + ", sum psi_n r^n H_n(y)=" + fmt((double)want), kase); }
+      }
+      bl->setFlagBound(true);
+    }
+    // ---- round trips / monotonicity inside the interval reported after the change of support
+    if (r < 1)
+    {
+      // the point fit itself must be clean (known _defineBounds defects, non-monotone fits are judged in part anam_hermite)
+      Ctx tmp; tmp.cur_part = "scratch";
+      judgeHermite(tmp, pt, "", "", 0, D.z);
+      bool clean = tmp.violCount.empty() && LAST_BOUNDS_CLASS == 0;
+      if (!clean) { C.skip(); C.outcome("roundtrip:point-fit-not-clean-or-bounds-not-nested(excluded)"); }
+      else
+      {
+        // mechanism: the bounds are those of the POINT model; the block curve does not pass through (py, pz) any more
+        bl->setFlagBound(false);
+        double tlo = bl->transformToRawValue(bl->getPymin()), thi = bl->transformToRawValue(bl->getPymax());
+        bl->setFlagBound(true);
+        double zsc = std::max({std::fabs(bl->getPzmin()), std::fabs(bl->getPzmax()), 1e-300});
+        bool stale = std::fabs(tlo - bl->getPzmin()) > 1e-9 * zsc || std::fabs(thi - bl->getPzmax()) > 1e-9 * zsc;
+        uint64_t nv0 = 0; for (auto& kv : C.violCount) nv0 += kv.second;
+        // routes 0/1: the bounds come from the point fit, the known _defineBounds mechanisms do not apply to the block curve;
+        // route 2: _defineBounds ran on the block curve itself, its known mechanisms keep their own keys
+        KEYPFX = K; NO_BOUNDS_MECH = (route != 2);
+        if (stale) MECH_OVERRIDE = K + "stale-point-bounds";
+        judgeHermite(C, bl, desc, kase, id, D.z);
+        MECH_OVERRIDE.clear(); NO_BOUNDS_MECH = false;
+        KEYPFX.clear();
+        uint64_t nv1 = 0; for (auto& kv : C.violCount) nv1 += kv.second;
+        C.outcome(std::string("roundtrip:") + (stale ? "bounds-are-the-point-ones" : "bounds-consistent") + (nv1 > nv0 ? ":CLAUSE-VIOLATED" : ":clauses-hold"));
+      }
+    }
+    C.nontrivial(id);
+    C.outcome(std::string("route:") + ROUTE[route] + ":r=" + fmt(r));
+    if (id % 1999 == 0) C.sample("{\"data\":" + jstr(D.name) + ",\"nbpoly\":" + std::to_string(nb) + ",\"r\":" + fmt(r) + ",\"route\":" + jstr(ROUTE[route]) + ",\"variance\":" + fmt(bl->getVariance()) + ",\"point_variance\":" + fmt(pt->getVariance()) + "}");
+    delete pt; delete bl;
+  });
 }
 
 int main(int argc, char** argv)
